@@ -104,17 +104,19 @@ def machine_spec(draw, profile="general", tier="quick"):
         # a kill is needed for +eps, none for -eps
         pools, multi, over = 1, True, True
         ram = draw(st.sampled_from([100, 64, 30, 256]))
-        parts = list(draw(st.sampled_from([(0.6, 0.4), (0.5, 0.3, 0.2), (0.7, 0.2, 0.1), (0.4, 0.35, 0.25), (0.5, 0.5)])))
+        parts = list(draw(st.sampled_from([(0.6, 0.4), (0.5, 0.3, 0.2), (0.7, 0.2, 0.1), (0.4, 0.35, 0.25), (0.5, 0.5),
+                                           (0.4, 0.4, 0.4), (0.6, 0.6), (0.3, 0.3, 0.3, 0.3)])))
+        tied = sum(parts) > 1.1      # identical containers over capacity: exactly equal scores among the candidates
         eps = draw(st.sampled_from([5e-4, 2e-5, 0.0, 1e-3, -5e-4, 0.0, 4e-4, 0.01]))
         ticks = draw(st.integers(2, 6))
         pipes = []
         whole = [float(round(f * ram)) for f in parts[:-1]]
         whole.append(float(ram - sum(whole)))
         for i, f in enumerate(parts):
-            memv = round(f * ram, 6) + (eps if i == len(parts) - 1 else 0.0)
-            if eps == 0.0:
+            memv = round(f * ram, 6) + (eps if i == len(parts) - 1 and not tied else 0.0)
+            if eps == 0.0 and not tied:
                 memv = whole[i]           # whole GB adding up to exactly the capacity: no kill is justified
-            pipes.append({"ops": [[{"io": 0, "cp": ticks + i, "law": "const", "mem": ["abs", memv]}]]})
+            pipes.append({"ops": [[{"io": 0, "cp": ticks + (0 if tied else i), "law": "const", "mem": ["abs", memv]}]]})
         pipes.append(draw(pipe_spec("oom")))
         npipes = len(pipes)
         cpus = max(cpus, len(parts) + 1)
@@ -143,20 +145,23 @@ def machine_spec(draw, profile="general", tier="quick"):
                           "idle": 0})
     if profile == "twins":
         # identical containers started together: they reach operator boundaries, and finish suspensions, in the same ticks
-        pools, multi = 1, True
+        pools, multi = draw(st.sampled_from([1, 1, 2, 3])), True
         base = draw(pipe_spec("general"))
         while len(base["ops"]) < 2:
             base["ops"].append([draw(seg_spec("general"))])
-        k = draw(st.integers(2, 4))
+        k = draw(st.integers(2, 4 if pools == 1 else 6))
         pipes = [dict(base) for _ in range(k)] + pipes[:2]
         npipes = len(pipes)
         cpus = max(cpus, k)
         rs = list(draw(st.sampled_from([("cap", 0.1), ("cap", 0.2), ("abs", 1), ("abs", 2), ("abs", 0.5), ("fit", 0.5)])))
-        steps.append({"sus": [], "asg": [[0, i, 0, ["abs", 1], rs, None] for i in range(k)], "idle": 0})
+        # with several pools the twins are dealt round-robin, and the suspensions of one call name the pools interleaved
+        steps.append({"sus": [], "asg": [[i % pools, i, 0, ["abs", 1], rs, None] for i in range(k)], "idle": 0})
         for _ in range(draw(st.integers(2, 12))):
-            steps.append({"sus": [[0, j, "ok"] for j in range(draw(st.integers(1, k)))], "asg": [], "idle": 0})
+            steps.append({"sus": [[j % pools, j // pools, "ok"] for j in range(draw(st.integers(1, k)))], "asg": [], "idle": 0})
     for _ in range(nsteps):
         nsus = draw(st.sampled_from([0, 0, 0, 1, 1, 2] if profile != "suspend" else [0, 1, 1, 1, 2]))
+        if pools >= 2 and profile in ("multi_pool", "suspend") and draw(st.integers(0, 2)) == 0:
+            nsus = draw(st.integers(3, 5))      # several suspensions in one call, pool numbers interleaved
         sus = [[draw(st.integers(0, pools - 1)), draw(st.integers(0, 5)), "ok"] for _ in range(nsus)]
         nasg = draw(st.sampled_from([0, 1, 1, 2, 3, 4] if profile != "oom" else [0, 1, 2, 3, 4, 5]))
         asg = []
@@ -351,6 +356,8 @@ class Episode:
                 continue
             sus_by_pool[pool].append(cid)
             real_sus.append(Suspend(cid, pool))
+            if any(x.pool_id == pool for x in real_sus[:-1]) and real_sus[-2].pool_id != pool:
+                out.label("suspensions_of_one_call_interleave_pools")
             if mode == "dup":
                 sus_by_pool[pool].append(cid)
                 real_sus.append(Suspend(cid, pool))
@@ -603,6 +610,11 @@ class Episode:
             return
         elif happened == "reject":
             self.problem("C08:valid-round-refused", f"admissible commands sus={sus_by_pool} asg={batch_by_pool} raised {type(exc).__name__}: {exc}")
+            if not isinstance(exc, (AssertionError, ValueError)):
+                # not a refusal but a crash inside the tick: the live containers get no outcome, the memory rules and the
+                # ledger of that tick are not applied - every pool property is broken by it
+                for tag in ("C03", "C04", "C09", "C10", "C11"):
+                    self.problem(f"{tag}:tick-crashed", f"admissible round raised {type(exc).__name__}: {exc}")
             self.ended = "problem"
             return
         # ---- accepted: learn the identifier the implementation gave to each new container (matched through the first
